@@ -119,13 +119,17 @@ func genWKB(t *rapid.T) ([]byte, string, bool) {
 		case "trailing":
 			data = append(data, rapid.SliceOfN(rapid.Byte(), 1, 16).Draw(t, "tail")...)
 		case "nest":
-			depth := rapid.SampledFrom([]int{10, 100, 1000, 7000}).Draw(t, "nestdepth")
+			depth := rapid.SampledFrom([]int{10, 100, 1000, 3000, 7000}).Draw(t, "nestdepth")
 			be := rapid.Bool().Draw(t, "nestbe")
 			var hdr []byte
 			if be {
 				hdr = []byte{0, 0, 0, 0, 7, 0, 0, 0, 1}
 			} else {
 				hdr = []byte{1, 7, 0, 0, 0, 1, 0, 0, 0}
+			}
+			if rapid.Bool().Draw(t, "nestinflated") {
+				// every level announces a hostile member count (each level may pre-size its slice again)
+				putU32(hdr, 5, be, rapid.SampledFrom(hostileCounts).Draw(t, "nestcount"))
 			}
 			inner := data
 			if len(inner) > 200 {
@@ -442,8 +446,15 @@ func checkOne(decoder string, data []byte, typed int) (ok bool, msg string) {
 	if r := float64(alloc) / float64(len(data)+1); err == nil && len(data) >= 512 && r > maxRatio {
 		maxRatio = r
 	}
-	if alloc > K*uint64(len(data))+1<<20 {
-		return false, fmt.Sprintf("decoding %d input bytes allocated %d bytes (bound %d*len+1MiB): a count field in the input is trusted", len(data), alloc, K)
+	// Every count field may pre-size one slice of at most 1024 elements of at most 24 bytes, and a count field needs at
+	// least a 9-byte header (or 4 bytes inside a polygon, which then needs its points): 24 KiB per 9 input bytes is the
+	// constant the decoder is designed to have (measured on chains of nested collections with inflated counts: 2050 B/B).
+	bound := K*uint64(len(data)) + 1<<20
+	if decoder == "wkb" || decoder == "hex" {
+		bound += uint64(len(data)/9+1) * 24 << 10
+	}
+	if alloc > bound {
+		return false, fmt.Sprintf("decoding %d input bytes allocated %d bytes (bound %d*len + 24KiB per 9-byte header + 1MiB = %d): a count field in the input is trusted", len(data), alloc, K, bound)
 	}
 	if (g == nil) == (err == nil) {
 		return false, fmt.Sprintf("result is neither (geometry, nil) nor (nil, error): g=%v err=%v", g, err)
@@ -546,7 +557,7 @@ func spec() vkit.Spec[Case] {
 			"random bytes; hex additionally upper case, odd length, non-hex characters. GeoJSON: documents from a grammar (well-shaped, noisy arity/scalars/depth, wrong depth, " +
 			"missing/duplicate/extra keys, non-string type, 50-30000 levels of arrays, huge/tiny numbers, garbage bytes) and mutated valid encodings; Geometry values with " +
 			"[]interface{}, []float64, int and nil-pointer shapes. Oracle per call: no panic; exactly one of geometry/error; geometry well-formed; heap bytes allocated during " +
-			"the call <= K*len(input)+1MiB (K=64 WKB/hex, 512 GeoJSON); on success decode(encode(g)) == g. Non-trivial = WKB/hex input derived from a valid encoding by >=1 " +
+			"the call <= K*len(input)+1MiB (K=64 WKB/hex, 512 GeoJSON) plus, for WKB/hex, 24 KiB per 9 input bytes (one pre-sized slice of <= 1024 elements per header; so chains of up to 7000 nested collections that each announce a hostile count stay linear); on success decode(encode(g)) == g. Non-trivial = WKB/hex input derived from a valid encoding by >=1 " +
 			"mutation and not rejected at the first byte, or JSON text that parses. Distinct by case hash. notes.max_honest_alloc_ratio = largest allocated/input ratio among successful decodes of inputs >= 512 bytes.",
 		Assumptions:  []string{"allocation is measured with runtime.MemStats.TotalAlloc around a single-goroutine call (heap bytes, not peak RSS)", "constants K chosen 10x above honest decoding"},
 		Gen:          gen,
